@@ -60,6 +60,11 @@ func (a *AndStrategy) Compute(snapshots <-chan *asset.Snapshot) <-chan Action {
 				result <- Hold
 			}
 		}
+
+		// One source ended; consume what the others still hold so that no stage is left blocked.
+		for _, source := range sources {
+			helper.Drain(source)
+		}
 	}()
 
 	return result
